@@ -10,7 +10,7 @@
 (* Many runs are concatenated in one file; a `reset` line starts a run and *)
 (* an `end` line reports the predicates violated in it.                    *)
 (***************************************************************************)
-EXTENDS Props, Classify, Json, IOUtils, SequencesExt
+EXTENDS Props, Classify, Tlv, Json, IOUtils, SequencesExt
 
 Rec == ndJsonDeserialize(IOEnv.TRACE)
 N == Len(Rec)
@@ -75,7 +75,7 @@ Reaction(line) ==
 
 \* the static HTLC record of an `htlc` line (class per Classify)
 HtlcRec(line) ==
-  LET cls == ClassOf(line, runinfo.invs, cfg.selfhints)
+  LET cls == IF line.big THEN "opaque" ELSE ClassOf(line, runinfo.invs, cfg.selfhints)
       v == IF line.inv >= 1 /\ line.inv <= Len(runinfo.invs) THEN runinfo.invs[line.inv]
            ELSE [hash |-> "", amt |-> 0]
   IN [hash |-> line.hash, cls |-> cls, key |-> IF cls = "tramp" THEN v.hash ELSE line.hash,
@@ -104,6 +104,23 @@ C12bytes(line) == \A k \in Items(line, "answer") :
 C06codes(line) == \A k \in Items(line, "answer") :
    line.out[k].r = "fail" => line.out[k].code \in {"node", "tramp", "fee"}
 
+\* C13: if the onion payload is rewritten at all, only the payment-metadata record (type 16)
+\* is removed; every other record is preserved byte for byte and in order
+C13payload(line) ==
+  line.ev = "htlc" /\ Has(line, "payload_in") =>
+    \A k \in Items(line, "answer") :
+      line.out[k].r = "continue" /\ line.out[k].payload # "none" =>
+        /\ Valid(line.payload_in)
+        /\ LET want == Encode(StripMetadata(Decode(line.payload_in))) IN
+           \/ line.out[k].pbytes = want
+           \/ line.out[k].pbytes = WriteBS(FromSmall(Len(want))) \o want
+
+\* C10: the payee reported for a failed trampoline payment is the key the invoice's signature
+\* verifies against, for the invoice's own payment hash
+C10payee(line) == \A k \in Items(line, "notify") :
+   LET o == line.out[k] IN
+   o.inv >= 1 /\ o.inv <= Len(runinfo.invs) /\ o.payee = runinfo.invs[o.inv].payee /\ o.hash = runinfo.invs[o.inv].hash
+
 \* every pay request carries the configured retry time and nothing unexpected
 PayShape(line) == \A c \in {CallRec(line.out[k]) : k \in Items(line, "issue")} :
    c.kind = "pay" => c.retry = cfg.retry /\ ~c.other /\ (cfg.xpay => ~c.label /\ ~c.risk)
@@ -113,7 +130,7 @@ Judged(line) ==
   [C01 |-> C01, C02 |-> C02, C03 |-> C03, C04 |-> C04, C05 |-> C05,
    C06 |-> C06once /\ C06nopanic /\ C06wellformed /\ C06codes(line),
    C07 |-> C07, C08 |-> C08, C11 |-> C11, C12 |-> C12 /\ C12bytes(line),
-   C13 |-> C13, C10 |-> C10hint, C15 |-> C15, C16 |-> C16, PAYSHAPE |-> PayShape(line)]
+   C13 |-> C13 /\ C13payload(line), C10 |-> C10hint /\ C10payee(line), C15 |-> C15, C16 |-> C16, PAYSHAPE |-> PayShape(line)]
 
 Violated(line) == LET j == Judged(line) IN {p \in DOMAIN j : ~j[p]}
 
